@@ -516,7 +516,9 @@ pub fn run_c03(out: &mut Out, rng: &mut Rng, thorough: bool, only: Option<&str>)
             } else if thorough {
                 vec![4095, 4096, 4097, 65_535, 65_536, 65_537]
             } else if head == 3 && v.ck_len() == 1 {
-                vec![4096, 65_535 + (head as u64 % 3), 1 << 20]
+                vec![4096, 65_535 + (head as u64 % 3), 1 << 20, (1 << 24) + 1]
+            } else if head == 4 && v.ck_len() == 1 {
+                vec![4096, 65_535 + (head as u64 % 3), 1 << 24]
             } else {
                 // (three-byte checksums are stepped by TLC: the 1 MiB piece is kept for the thorough tier)
                 vec![4096, 65_535 + (head as u64 % 3)]
@@ -648,6 +650,13 @@ pub fn run_c10(out: &mut Out, rng: &mut Rng, thorough: bool, only: Option<&str>)
                 let k = rng.range(2, 5) as usize;
                 let alpha = rng.bytes(k);
                 s.whole(&periodic(&alpha, n as usize));
+            }
+        }
+        // constant inputs of EVERY byte value (64 bytes): windows that touch only buckets the variant does not
+        // count, or only one of them (the reduced bucket arrays must not confuse "untouched" with "empty input")
+        if v.name() == "Normal" || (thorough && v.ck_len() == 1) {
+            for b in 0..=255u8 {
+                s.whole(&vec![b; 64]);
             }
         }
         // the tiniest inputs (0..8 bytes: less than, exactly and just more than one window), all 32 option sets
@@ -868,6 +877,19 @@ pub fn run_c11big(out: &mut Out, rng: &mut Rng, only: Option<&str>, giant_slice:
             s.update_periodic(3, &[0u8], 300, blocks * (1u64 << 30) + extra, rng, true);
             s.update(3, &rng.bytes(9));
             s.fin(3);
+        }
+        if giant_slice {
+            // powers of two on both sides: a generator holding exactly 2^31 (then 2^31 + 2^30) bytes in its length
+            // counter is handed ONE slice of exactly 2^31 (2^30) bytes
+            for (have, piece) in [(1u64 << 31, 1u64 << 31), ((1u64 << 31) + (1u64 << 30), 1u64 << 30)] {
+                let mut st = craft_state(*v, rng, 1);
+                st.len = have as u32;
+                st.tail = [0, 0, 0, 0];
+                st.tail_len = 4;
+                s.inject(2, &st);
+                s.update_periodic(2, &[0u8], have + 4, piece, rng, true);
+                s.fin(2);
+            }
         }
         if giant_slice && !marks_stream {
             // quick tier: one slice of 2^32 + 445 bytes only
